@@ -128,7 +128,7 @@ def ob_glue(cx):
 def obligations(tier):
     q = tier == "quick"
     p1 = dict(digits=3 if q else 5)
-    p2 = dict(n=4 if q else 6, m=3 if q else 5)
+    p2 = dict(n=4 if q else 5, m=3 if q else 5)
     p3 = dict(gn=3 if q else 4, gmax=30 if q else 60)
     to = 900 if q else 7200
     return [
